@@ -15,7 +15,14 @@ def ret_terms(P, f):
         if k == "ok":
             out.append(v.cx.operand(rv["ops"][0]))
         elif k == "call":
-            out.append(v.cx.call(rv, (f.key, b)))
+            t = v.cx.call(rv, (f.key, b))
+            from ..guards import returns_result
+            # a tail call returning Result: look through private helpers no rule names (their Ok payload re-wrapped)
+            exp = ok_of(P, t) if returns_result(f) else None
+            if exp and exp != [("ok", t)] and all(x[0] != "ok" for x in exp):
+                out += [("agg", "adt", "core::result::Result", "Ok", (("0", x),)) for x in exp]
+            else:
+                out.append(t)
         elif k == "other":
             out.append(v.cx.rvalue(rv, (f.key, b, 0)))
     return out
